@@ -163,6 +163,23 @@ def stepTranslate (ws : List String) : Option String :=
     let f : OutFormat := match fmt with | "csv" => .csv | "tsv" => .tsv | "monocolumn" => .monocolumn | _ => .input
     let r := cliDialects (decStr d) (decP pol) f
     some s!"{encStr r.inDelim} {encP r.inPolicy} {encStr r.outDelim} {encP r.outPolicy}"
+  | ["clidoor", v, c, o, pol, d, q] =>
+    -- the front door of `python -m rbql` (Model/Cli.lean: cliDoor)
+    let decP (s : String) : Option CliPolicy := match s with
+      | "simple" => some .simple | "quoted" => some .quoted | "quoted_rfc" => some .quotedRfc
+      | "whitespace" => some .whitespace | "monocolumn" => some .monocolumn | _ => none
+    let encP : CliPolicy → String
+      | .simple => "simple" | .quoted => "quoted" | .quotedRfc => "quoted_rfc" | .whitespace => "whitespace" | .monocolumn => "monocolumn"
+    let a : CliArgs := { version := decBool v, color := decBool c, hasOutput := decBool o, policy := decP pol,
+                         delim := if d == "N" then none else some (decStr (d.drop 1).toString), hasQuery := decBool q }
+    some (match cliDoor a with
+      | .printVersion => "version"
+      | .refuse .colorWithOutput => "refuse color-output"
+      | .refuse .policyWithoutDelim => "refuse policy-without-delim"
+      | .refuse .colorInteractive => "refuse color-interactive"
+      | .refuse .delimRequired => "refuse delim-required"
+      | .interactive => "interactive"
+      | .run dl p => s!"run {encStr dl} {encP p}")
   | ["dictvars", js, pfx, query, names] =>
     some (encVarMap (parseDictionaryVariables (decBool js) (decStr query) ((decStr pfx).headD 'a') (decList names) []))
   | ["attrvars", js, pfx, query, names] =>
@@ -311,6 +328,7 @@ def stepLine (line : String) : String :=
   if line.startsWith "queryjs " then opQueryJs (line.drop 8).toString
   else if line.startsWith "query " then opQuery (line.drop 6).toString
   else if line.startsWith "header " then opHeader (line.drop 7).toString
+  else if line.startsWith "pyinfos " then opPyInfos (line.drop 8).toString
   else step line
 
 partial def loop (h : IO.FS.Stream) (out : IO.FS.Stream) : IO Unit := do
